@@ -76,6 +76,7 @@ fn main() {
         "c04" => c04::main(&a),
         "ls-ignore" => lsx::ls_ignore(&a),
         "ls-stats" => lsx::ls_stats(&a),
+        "ls-stats-paths" => lsx::ls_stats_paths(&a),
         other => {
             eprintln!("unknown subcommand {other}");
             std::process::exit(2);
